@@ -20,7 +20,8 @@ ConfigsAll ==
       sp \in NameSets, g \in Grids, nt \in 1..3, st \in Starts, h \in BOOLEAN }
 \* the quick tier keeps the shapes that matter most: 1-3 steps, every start, small grids
 Configs == IF Quick THEN {x \in ConfigsAll : x.nx * x.ny * x.nz <= 4 /\ Len(x.spc) <= 2
-                                            /\ x.name[1] = "A" /\ (x.h24 <=> x.nt = 2)}
+                                            /\ (x.name[1] = "A" \/ (Len(x.spc) = 1 /\ x.jjj = 1))
+                                            /\ (x.h24 <=> x.nt = 2)}
            ELSE ConfigsAll
 
 \* meteorological formats: one configuration record per format/grid/steps/start
